@@ -101,6 +101,8 @@ def main() -> int:
     merged_parts = {}
     for name in part_names:
         part = mod.PARTS[name]
+        if part["budget"][args.tier] == 0:
+            continue  # this part is not run in this tier
         budget = max(1, int(part["budget"][args.tier] * args.scale))
         n_shards = part.get("n_shards", common.N_PROC)
         results = common.run_sharded(mod.__name__, name, args.tier, seed, budget, n_shards=n_shards)
